@@ -128,7 +128,9 @@ for cfg, cdef in CONFIGS.items():
                            [('named_member_%s_at_%d' % (order[i], i), 'll2c_f32_bits(out[%d]) == ll2c_f32_bits(a%d)' % (4 + i, i)) for i in range(4)])))
     # ---------------- aligned types: documented size and alignment, element order unchanged
     if cfg in ALIGNED_CFG:
-        for tag in ('f32', 'i32', 'u32', 'f64'):
+        # f32/i32/u32/f64 have __m128/__m128i/__m256d storage specialisations; the other element types use the generic
+        # storage<L, T, true> (alignas(next power of two of L) * sizeof(T)), which the same documented rule covers
+        for tag in ('f32', 'i32', 'u32', 'f64', 'bool', 'i8', 'u8', 'i16', 'u16', 'i64', 'u64'):
             T = cppT(tag)
             for L in (1, 2, 3, 4):
                 V = 'glm::vec<%d, %s, glm::aligned_highp>' % (L, T)
